@@ -990,6 +990,12 @@ def tok_12(ctx, rep):
             span_of = norm(v.func.value)
     if start_name is None:
         raise AnalysisError('TOK-12: `start, pos = <match>.span(k)` not found in tokenize_lines')
+    # the physical line: the variable of the per-line loop
+    line_name = None
+    for n in walk_own(f.node):
+        if isinstance(n, ast.For) and isinstance(n.target, ast.Name) and any(
+                isinstance(x, ast.Call) and isinstance(x.func, ast.Attribute) and x.func.attr == 'span' for x in ast.walk(n)):
+            line_name = n.target.id
     for n in cfg.nodes:
         a = n.ast
         if n.kind == 'stmt' and isinstance(a, ast.Assign) and isinstance(a.targets[0], ast.Name) and isinstance(a.value, ast.Call) \
@@ -1015,6 +1021,17 @@ def tok_12(ctx, rep):
     heads = [n for n in cfg.nodes if n.kind == 'test' and n.stmt is loop]
     if not heads:
         raise AnalysisError('TOK-12: the test of the scan loop is not in the CFG')
+
+    # the end of the physical line: the bound of the scan loop, or len(<line> ...)
+    bound = None
+    if isinstance(loop.test, ast.Compare) and len(loop.test.ops) == 1 and isinstance(loop.test.comparators[0], ast.Name):
+        bound = loop.test.comparators[0].id
+
+    def _is_end_of_line(v):
+        if isinstance(v, ast.Name) and v.id == bound:
+            return True
+        return isinstance(v, ast.Call) and isinstance(v.func, ast.Name) and v.func.id == 'len' and len(v.args) == 1 and any(
+            isinstance(x, ast.Name) and x.id == line_name for x in ast.walk(v.args[0]))
 
     def ev(e, tok):
         """small integer evaluator over len(token) and constants"""
@@ -1070,6 +1087,8 @@ def tok_12(ctx, rep):
             if isinstance(E, tuple) and (P == 'END' or (isinstance(P, tuple) and P[1] != E[1])):
                 key = (E, P)
                 problems.setdefault(key, state)
+            if P == 'EOL' and E is not None and E != '?':
+                problems.setdefault((E, P), state)
             continue
         if node.kind == 'stmt' and a is not None and node is not anchor:
             if isinstance(a, ast.Assign) and len(a.targets) == 1 and isinstance(a.targets[0], ast.Name):
@@ -1090,6 +1109,8 @@ def tok_12(ctx, rep):
                     if isinstance(v, ast.BinOp) and isinstance(v.op, ast.Add) and norm(v.left) == start_name:
                         k = ev(v.right, tok)
                         P = ('K', k) if k is not None else '?'
+                    elif _is_end_of_line(v):
+                        P = 'EOL'
                     else:
                         P = '?'
                 elif t == start_name:
@@ -1107,6 +1128,13 @@ def tok_12(ctx, rep):
                     else:
                         P = '?'
             e2 = emitted(a, tok)
+            if e2 is None and isinstance(a, (ast.Assign, ast.AugAssign)):
+                # the text goes into a pending prefix:  acc = prefix + token  /  acc += prefix + token
+                tg = a.targets[0] if isinstance(a, ast.Assign) else a.target
+                if isinstance(tg, ast.Name) and tg.id not in (token_name, pos_name, start_name) and isinstance(a.value, ast.BinOp) \
+                        and isinstance(a.value.op, ast.Add) and any(isinstance(x, ast.Name) and x.id == token_name
+                                                                    for x in (a.value.left, a.value.right)):
+                    e2 = 'M' if tok == 'M' else (('K', len(tok[1])) if isinstance(tok, tuple) else '?')
             if e2 is not None:
                 E = e2
         for s2, lab in node.succ:
@@ -1128,6 +1156,13 @@ def tok_12(ctx, rep):
     if not problems:
         rep.ob('TOK-12', TOK, f.qual, 'emitted text and scan position agree at every return to the scan loop', True)
     for (E, P), state in sorted(problems.items(), key=str):
+        if P == 'EOL':
+            rep.ob('TOK-12', TOK, f.qual, 'the matched text is emitted and the scan continues at the end of the line', False,
+                   'the step emits the text of the match (a token or a pending prefix) but the next step starts at the end of the '
+                   'physical line: whatever lies between the end of the match and the end of the line is in no token and no '
+                   'prefix (the match may have been taken on a shortened copy of the line). Path: %s' % ' -> '.join(trail(state)),
+                   witness=trail(state))
+            continue
         rep.ob('TOK-12', TOK, f.qual, 'a text of %d character(s) is emitted and the scan continues at %s' % (
             E[1], 'the end of the whole match' if P == 'END' else 'start + %d' % P[1]), False,
             'the step emits %d character(s) of the match but the next step starts %s: the characters in between are in no '
